@@ -29,14 +29,31 @@ def sequences(S):
 class Model:
     """the HMM handed to tracklib: per-epoch candidate lists, time-dependent tables; records protocol errors"""
 
-    def __init__(self, S, lp, lq, track):
+    def __init__(self, S, lp, lq, track, variant=None):
         self.S, self.lp, self.lq, self.track = S, lp, lq, track
         self.errors = []
+        self.variant = variant
+        self.shared = ['u%d' % l for l in range(S[0])]       # variant 'shared': ONE list object of epoch-independent labels handed out at every epoch
+
+    def label(self, k, l):
+        return 'u%d' % l if self.variant == 'shared' else state(k, l)
 
     def states(self, track, k):
+        if self.variant == 'shared':
+            return self.shared
+        if self.variant == 'tuple':
+            return tuple(state(k, l) for l in range(self.S[k]))
+        if self.variant == 'range':          # candidates given as a lazy sequence of labels
+            return _Labels(k, self.S[k])
         return [state(k, l) for l in range(self.S[k])]
 
     def Q(self, s1, s2, k, track):
+        if self.variant == 'shared':
+            try:
+                return self.lq[k][int(s1[1:])][int(s2[1:])]
+            except Exception:
+                self.errors.append('transition model queried with a non-state %r / %r' % (s1, s2))
+                return 0.0
         try:
             k1, m = [int(v) for v in s1[1:].split('_')]
             k2, l = [int(v) for v in s2[1:].split('_')]
@@ -49,6 +66,12 @@ class Model:
         return self.lq[k][m][l]
 
     def P(self, s, y, k, track):
+        if self.variant == 'shared':
+            try:
+                return self.lp[k][int(s[1:])]
+            except Exception:
+                self.errors.append('observation model queried with a non-state %r' % (s,))
+                return 0.0
         try:
             k1, l = [int(v) for v in s[1:].split('_')]
         except Exception:
@@ -58,6 +81,24 @@ class Model:
             self.errors.append('observation model queried for a state of epoch %d with epoch argument %d and observation %r' % (k1, k, y))
             return 0.0
         return self.lp[k][l]
+
+
+class _Labels:
+    """a sequence that is not a list (like range): indexable, sized, iterable"""
+
+    def __init__(self, k, n):
+        self.k, self.n = k, n
+
+    def __len__(self):
+        return self.n
+
+    def __getitem__(self, i):
+        if not 0 <= i < self.n:
+            raise IndexError(i)
+        return state(self.k, i)
+
+    def __iter__(self):
+        return iter([state(self.k, i) for i in range(self.n)])
 
 
 def log_axioms(x, out):
@@ -96,6 +137,12 @@ class C09(Check):
             nf = sum(S) + sum(a * b for a, b in zip(S, S[1:]))
             if nf <= (10 if tier == 'quick' else 14):
                 js.append(dict(kind='hmm', S=list(S), mode='lik'))
+        # aliasing / value-kind probes: one shared candidate list object for every epoch with time-dependent tables; candidates handed over as a tuple / a lazy sequence
+        for S in ((2, 2), (2, 2, 2), (3, 3)) if tier == 'quick' else ((2, 2), (2, 2, 2), (3, 3), (3, 3, 3), (2, 2, 2, 2)):
+            js.append(dict(kind='hmm', S=list(S), mode='log', variant_model='shared'))
+        for S in ((2, 1), (2, 2), (2, 3, 2)):
+            for vm in ('tuple', 'range'):
+                js.append(dict(kind='hmm', S=list(S), mode='log', variant_model=vm))
         # scale probes (log form): wide epochs and long / large-magnitude models; every table entry is a fixed number except the listed ones
         wide = [((9, 2), 100), ((10, 3), 100), ((2, 9, 2), 100)] + ([] if tier == 'quick' else [((12, 12), 100), ((3, 16, 2), 100), ((17, 2), 50)])
         for S, mag in wide:
@@ -144,7 +191,7 @@ class C09(Check):
         dyn = sys.modules[DYN]
         S = job['S']
         tr = make_track(len(S))
-        mdl = Model(S, lp, lq, tr)
+        mdl = Model(S, lp, lq, tr, job.get('variant_model'))
         hmm = dyn.HMM(mdl.states, mdl.Q, mdl.P, log=log)
         hmm.estimate(tr, 'yobs', mode=dyn.MODE_OBS_AS_SCALAR, verbose=0)
         return tr, mdl
@@ -170,7 +217,7 @@ class C09(Check):
         ctx.reach()
         idx = []
         for k in range(T):
-            cands = [state(k, l) for l in range(S[k])]
+            cands = [mdl.label(k, l) for l in range(S[k])]
             if inf[k] not in cands:
                 ctx.fail('assigned state is not one of the epoch\'s candidates')
                 return
@@ -231,7 +278,7 @@ class C09(Check):
         out = dict(cost_last=float(cost[-1]))
         idx = []
         for k in range(T):
-            cands = [state(k, l) for l in range(S[k])]
+            cands = [mdl.label(k, l) for l in range(S[k])]
             if inf[k] not in cands:
                 return dict(violation='epoch %d assigned %r which is not one of its candidates %r' % (k, inf[k], cands), outputs=out)
             idx.append(cands.index(inf[k]))
